@@ -51,7 +51,7 @@ def _real_body(stats):
 
     from .. import realcluster
     from ..common import HarnessError, Violation
-    from ..genjob import build_job
+    from ..genjob import build_job, same_value
     from ..refeval import evaluate
 
     n = [0]
@@ -69,7 +69,9 @@ def _real_body(stats):
             if out["verdict"] == "hang":  # confirm before believing a time-out (as C05 does)
                 n[0] += 1
                 p2 = dict(p)
-                p2.update({"port": 2000 + shard_i * 450 + (n[0] % 12) * 36, "prefix": f"r{os.getpid() % 10000}y{n[0] % 1000}"})
+                # the confirming run uses a port block far from the first one: a foreign process listening on one of the first
+                # block's ports (another test suite on this machine) makes a cluster hang without any fault of the library
+                p2.update({"port": 31000 + shard_i * 100, "prefix": f"r{os.getpid() % 10000}y{n[0] % 1000}"})
                 out = realcluster.run_plan(p2, 120)
         finally:
             shutil.rmtree(tmp, ignore_errors=True)
@@ -81,7 +83,7 @@ def _real_body(stats):
         ref = evaluate(job)
         for ds in job.ext_outputs:
             got = out.get("outputs", {}).get(repr(ds), "<missing>")
-            if got != ref[(ds.task, ds.output)]:
+            if not same_value(got, ref[(ds.task, ds.output)]):
                 raise Violation(f"real cluster: {ds} = {got!r}, sequential evaluation gives {ref[(ds.task, ds.output)]!r}", "real-output-wrong")
         return len(plan["job"]["tasks"]) >= 2, ["real_cluster_run"]
 
@@ -102,7 +104,7 @@ def shard(seed, cases, tier):
     plans = st.builds(lambda j, h, w: {"job": j, "hosts": h, "workers": w}, job_specs(max_tasks=7, min_tasks=1, gpu=False, ext="any"),
                       st.integers(1, 2), st.integers(1, 3))
     # one real-cluster sample per shard in the quick tier (16 runs in parallel), three in the thorough tier (48)
-    common.hyp_run(plans, _real_body(real), real, seed + 13, 3 if tier == "thorough" else 1, shrink=False)
+    common.hyp_run(plans, _real_body(real), real, seed + 13, 3 if tier == "thorough" else 1, shrink=False, skip_first=True)
     if real.violations:
         return real
     st_ = simcheck.shard(FAMILY, _nt, seed, cases, tier)
